@@ -28,6 +28,11 @@ CREDS = ["v2c:a", "v2c:b", "v1:a", "v3:user1", "v3:user2"]
 USERS = {
     "user1": usm.User(b"user1", ("md5", b"authpass-one")),
     "user2": usm.User(b"user2", ("sha1", b"authpass-two"), ("vstream", b"privpass-two")),
+    # the same user after the device's administrator changed the privacy
+    # password / the authentication password (the agent knows the variant the
+    # model says is active)
+    "user2b": usm.User(b"user2", ("sha1", b"authpass-two"), ("vstream", b"privpass-other")),
+    "user2c": usm.User(b"user2", ("sha1", b"authpass-changed"), ("vstream", b"privpass-two")),
 }
 SETTINGS = {
     "timeout": [6, 1],
@@ -48,6 +53,10 @@ def lib_creds(name):
         return V2C(arg)
     if arg == "user1":
         return V3("user1", Auth(b"authpass-one", "md5"))
+    if arg == "user2b":
+        return V3("user2", Auth(b"authpass-two", "sha1"), Priv(b"privpass-other", "vstream"))
+    if arg == "user2c":
+        return V3("user2", Auth(b"authpass-changed", "sha1"), Priv(b"privpass-two", "vstream"))
     return V3("user2", Auth(b"authpass-two", "sha1"), Priv(b"privpass-two", "vstream"))
 
 
@@ -79,6 +88,7 @@ class System:
         self.tokens = [0]  # model: which message-processing instance each frame uses
         self.next_token = 1
         self.discovered = set()  # tokens whose (v3) instance has done discovery
+        self.used = {}  # token -> credentials a request was issued with, in order of first use
         self.blocks = []  # (context manager, client.config before enter)
         self.datagrams = []
         self.dead = False
@@ -110,9 +120,13 @@ class System:
         ren = {}
         toks = tuple(ren.setdefault(t, len(ren)) for t in self.tokens)
         disc = tuple(sorted(ren[t] for t in self.discovered if t in ren))
+        # which credentials each live instance has already worked with (state
+        # derived from credentials - localised keys - may be kept per instance)
+        used = tuple(sorted((ren[t], u) for t, u in self.used.items() if t in ren))
         return (
             toks,
             disc,
+            used,
             tuple(tuple(sorted(f.items())) for f in self.stack),
             cfg(c.config),
             type(c.mpm).__name__,
@@ -126,7 +140,7 @@ def repr_creds(c):
     from puresnmp.credentials import V2C, V3
 
     if isinstance(c, V3):
-        return ("v3", c.username, c.auth is not None, c.priv is not None)
+        return ("v3", c.username, c.auth and (c.auth.method, c.auth.key), c.priv and (c.priv.method, c.priv.key))
     return ("v2c" if isinstance(c, V2C) else "v1", c.community)
 
 
@@ -138,6 +152,9 @@ SUBALPHABETS = {
     "credentials+request": dict(settings={"credentials": ["v2c:a", "v3:user1", "v3:user2"]}, request=True, bogus=False),
     "transport+context": dict(settings={"timeout": [6, 1], "retries": [10, 2], "context": ["default", "ctx-c"]}, request=False, bogus=True),
     "mixed": dict(settings={"credentials": ["v2c:b", "v1:a", "v3:user2"], "timeout": [1], "context": ["ctx-c"]}, request=False, bogus=True),
+    # one user name, changing passwords (keys derived from a password must
+    # not outlive the credentials they were derived from)
+    "same-user+request": dict(settings={"credentials": ["v3:user2", "v3:user2b", "v3:user2c"]}, request=True, bogus=False),
 }
 ACTIVE = [SUBALPHABETS["credentials"]]
 
@@ -277,6 +294,9 @@ def step(sysm, ev):
             bad("configuration-not-restored", now=repr(c.config)[:300], before=repr(before)[:300])
     elif name == "request":
         top = sysm.stack[-1]
+        if family(top["credentials"]) == "v3":
+            active = USERS[top["credentials"].split(":")[1]]
+            sysm.v3_agent.users[active.name] = active
         sysm.sender.calls = []
         sysm.datagrams = []
         try:
@@ -302,6 +322,8 @@ def step(sysm, ev):
         # discovery: a message-processing instance discovers once; leaving a
         # block gives the instance (and its discovery) of before the block back
         tok = sysm.tokens[-1]
+        if top["credentials"] not in sysm.used.get(tok, ()):
+            sysm.used[tok] = sysm.used.get(tok, ()) + (top["credentials"],)
         if family(top["credentials"]) == "v3":
             expected = 1 if tok in sysm.discovered else 2
             sysm.discovered.add(tok)
